@@ -9,6 +9,7 @@ mod mutate;
 mod ops;
 mod optable;
 mod props;
+mod reach;
 mod run;
 mod wal;
 
